@@ -399,18 +399,22 @@ theorem public_inputs_sublist (p : Prog) (inputs : List Nat) (b : Built) (tr : L
   · simp only at h
     split at h
     · cases h
-    · cases h
-      simp only [keptInputs, if_true]
-      exact List.filter_sublist
+    · split at h
+      · cases h
+      · cases h
+        simp only [keptInputs, if_true]
+        exact List.filter_sublist
 
 /-- **public_inputs_exact**: an input is kept iff it was given and the traversal found it as an
     argument of the main graph (`arguments_of[main]`, which no body claims); and every argument the
-    main graph needs was given (else `KeyError`), with or without `drop_unused_inputs`. -/
+    main graph needs was given (else `KeyError`), with or without `drop_unused_inputs`; the emission is
+    the one of `build` and passed the final checker (`structOk`, tested before the inputs). -/
 theorem public_inputs_exact (p : Prog) (inputs : List Nat) (drop : Bool) (b : Built) (tr : List Ev)
     (kept : List Nat) (h : publicBuild p inputs drop = .ok (b, tr, kept)) :
     (∀ a, a ∈ lookupL b.argsOf 0 → a ∈ inputs) ∧
     (∀ a, a ∈ kept ↔ a ∈ inputs ∧ a ∈ lookupL b.argsOf 0) ∧
-    build (p.withMainArgs (if drop then none else some inputs)) = .ok (b, tr) := by
+    build (p.withMainArgs (if drop then none else some inputs)) = .ok (b, tr) ∧
+    structOk (p.withMainArgs (if drop then none else some inputs)) tr [] = true := by
   unfold publicBuild at h
   split at h
   · cases h
@@ -418,23 +422,26 @@ theorem public_inputs_exact (p : Prog) (inputs : List Nat) (drop : Bool) (b : Bu
     simp only at h
     split at h
     · cases h
-    · rename_i hany
-      cases h
-      have hall : ∀ a, a ∈ lookupL b.argsOf 0 → a ∈ inputs := by
-        intro a ha
-        apply Classical.byContradiction
-        intro hn
-        apply hany
-        rw [List.any_eq_true]
-        exact ⟨a, ha, by simpa using hn⟩
-      refine ⟨hall, ?_, hb⟩
-      intro a
-      cases drop with
-      | true =>
-        simp only [keptInputs, if_true, List.mem_filter, List.contains_iff_mem]
-      | false =>
-        simp only [keptInputs, Bool.false_eq_true, if_false]
-        exact ⟨fun ha => ⟨hall a ha, ha⟩, fun ha => ha.2⟩
+    · rename_i hso
+      split at h
+      · cases h
+      · rename_i hany
+        cases h
+        have hall : ∀ a, a ∈ lookupL b.argsOf 0 → a ∈ inputs := by
+          intro a ha
+          apply Classical.byContradiction
+          intro hn
+          apply hany
+          rw [List.any_eq_true]
+          exact ⟨a, ha, by simpa using hn⟩
+        refine ⟨hall, ?_, hb, hso⟩
+        intro a
+        cases drop with
+        | true =>
+          simp only [keptInputs, if_true, List.mem_filter, List.contains_iff_mem]
+        | false =>
+          simp only [keptInputs, Bool.false_eq_true, if_false]
+          exact ⟨fun ha => ⟨hall a ha, ha⟩, fun ha => ha.2⟩
 
 /-! ### the bridge to the shared program model (C01): the built emission is accepted by `validG` -/
 
